@@ -18,11 +18,50 @@ def tasks(tier, seed):
     return gen.spread(ts, hs)
 
 
-def parse_label(lbl):
-    if len(lbl) >= 2 and lbl[0] == "{" and lbl[-1] == "}":
-        inner = lbl[1:-1]
-        return sorted(ab.enc(x) for x in inner.split(",")) if inner else []
-    return ["<unparsable label %s>" % ab.enc(lbl)]
+def label_candidates(lbl, Q):
+    """all subsets of the NFA's states whose printed form '{x,y}' equals the DFA state's label
+    (more than one when state names contain commas)"""
+    import itertools
+    out = []
+    Q = sorted(Q)
+    for r in range(len(Q) + 1):
+        for c in itertools.combinations(Q, r):
+            if "{" + ",".join(sorted(c)) + "}" == lbl or (not c and lbl == "{}"):
+                out.append(sorted(ab.enc(x) for x in c))
+    return out
+
+
+def _reach_subsets(fa):
+    """subset construction on the abstract value (used only to classify a failure)"""
+    eps = fa["eps"]
+    T = fa["T"]
+
+    def close(X):
+        X = set(X)
+        while True:
+            N = X | {t[2] for t in T if t[0] in X and t[1] == eps}
+            if N == X:
+                return frozenset(X)
+            X = N
+    start = close({fa["q0"]})
+    seen, todo = {start}, [start]
+    while todo:
+        X = todo.pop()
+        for a in fa["S"]:
+            Y = close({t[2] for t in T if t[0] in X and t[1] == a})
+            if Y not in seen:
+                seen.add(Y)
+                todo.append(Y)
+    return seen
+
+
+def printed_subsets_collide(e):
+    """two different reachable subsets print as the same DFA state label"""
+    names = ["{" + ",".join(sorted(ab.dec(x) for x in X)) + "}" for X in _reach_subsets(e["fa"])]
+    return len(set(names)) < len(names)
+
+
+MATCHERS = {"printed_subsets_collide": printed_subsets_collide}
 
 
 def one(src):
@@ -33,7 +72,7 @@ def one(src):
     ev = {"op": "nfa_to_dfa", "fa": pre, "exc": exc, "src": src, "post": ab.nfa(N)}
     if exc == "none":
         ev["res"] = ab.dfa(D)
-        ev["q0label"] = parse_label(D.q0)
+        ev["q0cands"] = label_candidates(D.q0, N.Q)
     yield ev
 
 
@@ -65,9 +104,9 @@ def nontrivial(e):
 
 
 def check(tier, seed):
-    return base.standard_check(PID, tier, seed, tasks(tier, seed), MODELS[tier], RULE, nontrivial,
-                               assumptions=["DFA state labels are the printed state sets {..}; NFA state names "
-                                            "without commas", "<= 6 states"])
+    return base.standard_check(PID, tier, seed, tasks(tier, seed), MODELS[tier], RULE, nontrivial, matchers=MATCHERS,
+                               assumptions=["a DFA state 'stands for' a subset when its label is the printed form "
+                                            "of that subset", "<= 6 states"])
 
 
 def replay(path, seed):
